@@ -41,6 +41,7 @@ package limit
 //@   ensures[reject-only-if-used-up] seq: result.LimitSate == Block ==> state.gPass >= allow(windowData, state.spillover)
 //@   ensures[verdict] seq: result.LimitSate == Block || result.LimitSate == Proceed
 //@   ensures[counter] seq: result.NewCounter == state.counter
+//@   ensures[window-as-configured-now] seq: state.windowData.WindowSize == windowData.WindowSize && state.windowData.AllowedRequestCount == windowData.AllowedRequestCount && state.windowData.QuotaAllocationRatio == windowData.QuotaAllocationRatio && state.windowData.SpilloverEnabled == windowData.SpilloverEnabled && state.windowData.SpilloverRenewOnDay == windowData.SpilloverRenewOnDay
 
 //@ func (*singleRateLimitState).Counter
 //@   prop C09
